@@ -40,7 +40,8 @@ def check(run, model, tier):
     E = queues.consumer_end(model)
     queues.check_post_ends(run, model, 'ENDS.post', E)
     queues.check_next_rtc(run, model, 'CONSUMER.next_rtc', E)
-    queues.check_locking_deque(run, model, 'ENDS.locking', 'TOKEN.wakeup', 'BOUND.tokens', rule_monotone='TOKEN.wakeup', rule_repair='TOKEN.wakeup')
+    queues.check_dispatch_sites(run, model, 'CONSUMER.next_rtc', E)
+    queues.check_locking_deque(run, model, 'ENDS.locking', 'TOKEN.wakeup', 'BOUND.tokens', rule_monotone='TOKEN.wakeup', rule_repair='TOKEN.wakeup', rule_lock='TOKEN.wakeup')
     cg = callgraph(model)
     ao = model.cls('ActiveObject')
     hq = model.cls('HsmWithQueues')
